@@ -44,6 +44,8 @@ def scenario(sid, workload, timing, faults, dials=(), connacks=(), opts=None, in
         r = {"k": w["k"], "at": timing[i] if i < len(timing) else "conn"}
         if w["k"] == "pub":
             r["q"] = w["q"]
+            if w.get("retain"):
+                r["retain"] = True
         elif w["k"] == "sub":
             r["subs"] = w["subs"]
         elif w["k"] == "unsub":
@@ -305,7 +307,7 @@ def mc_retry(workload, faults=2, deliver_on_rel=False, sessions=(True,), always_
                     workers=workers or min(12, vlib.NCPU), timeout=timeout, heap=heap)
 
 
-PUB = lambda q: {"k": "pub", "q": q, "subs": [], "fs": []}  # noqa: E731
+PUB = lambda q, retain=False: dict({"k": "pub", "q": q, "subs": [], "fs": []}, **({"retain": True} if retain else {}))  # noqa: E731
 SUB = lambda *fq: {"k": "sub", "q": 0, "subs": [{"f": f, "q": q} for f, q in fq], "fs": []}  # noqa: E731
 UNSUB = lambda *fs: {"k": "unsub", "q": 0, "subs": [], "fs": list(fs)}  # noqa: E731
 
